@@ -7,7 +7,8 @@ LEAN = os.path.join(ROOT, 'lean')
 HARNESS = os.path.join(ROOT, 'harness')
 REPO = os.environ.get('VERIF_REPO', '/repo')
 DRIVER_BIN = os.path.join(LEAN, '.lake', 'build', 'bin', 'ivdriver')
-HARNESS_BIN = os.path.join(HARNESS, 'bin', 'ivharness')
+_ALT = '' if REPO == '/repo' else '-' + hashlib.md5(REPO.encode()).hexdigest()[:8]     # a second tree can be checked concurrently
+HARNESS_BIN = os.path.join(HARNESS, 'bin', 'ivharness' + _ALT)
 NPROC = min(16, os.cpu_count() or 4)
 ALLOWED_AXIOMS = {'propext', 'Classical.choice', 'Quot.sound'}
 
@@ -245,7 +246,7 @@ def cmp_streams(go_streams, model_streams, scale=1.0):
 
 
 # ---------------------------------------------------------------- Lean obligations
-EXTRA_MODULES = {'C01': ['C01Gen'], 'C18': ['C18Gen']}
+EXTRA_MODULES = {'C01': ['C01Gen'], 'C18': ['C18Gen'], 'C05': ['C05Hand'], 'C06': ['C06Hand']}
 
 
 def lean_obligations(prop):
